@@ -1,6 +1,6 @@
 (* Lemmas about Model/TokWriters.v (LuaMinifyTokenWriter of pico8/lua/lua.py): source pins,
    totality, and the shape of the output (header comments first, then the body). *)
-From PV Require Import Base.Prelude Base.PySlice Generated.T_lexer Generated.T_minifier Generated.T_luanames
+From PV Require Import Base.Prelude Base.PySlice Generated.T_lexer Generated.T_minifier Generated.T_minifier_p8 Generated.T_luanames
   Model.NameFactory Model.Lexer Model.TokWriters Proofs.NameFactoryProofs.
 
 (* ---------- pins: the control flow Model/TokWriters.v mirrors ---------- *)
@@ -70,6 +70,16 @@ for token in self._tokens:
         self._last_was_name_keyword_number = token.code in b'])}'
         self._last_was_newline = False
         yield token.code"%bs.
+Proof. reflexivity. Qed.
+
+Lemma pin_p8_lua_section_src : p8_lua_section_src =
+"outstr.write(b'__lua__\n')
+ended_in_newline = None
+for line in game.lua.to_lines(writer_cls=lua_writer_cls, writer_args=lua_writer_args):
+    outstr.write(bytes(lua.p8scii_to_unicode(line), 'utf-8'))
+    ended_in_newline = line.endswith(b'\n')
+if not ended_in_newline:
+    outstr.write(b'\n')"%bs.
 Proof. reflexivity. Qed.
 
 (* ---------- totality: the writer never raises ---------- *)
